@@ -223,6 +223,22 @@ func (m *Monitor) expectPublication(s *step, rl *Realm, publisher int, topic str
 			if t, has := detailStr(ev.Details, "topic"); pattern && (!has || t != topic) {
 				m.R.Fail("PS9", "topic detail", "after %v: EVENT at P%d for %s subscription %q lacks details.topic=%q: %s", s.op, r, sub.Key.policy, sub.Key.topic, topic, o.Snap)
 			}
+			// PS9: nothing in the details that this publication does not account for
+			pptReq, _ := opts["ppt_scheme"].(string)
+			for k, v := range ev.Details {
+				switch k {
+				case "topic", "publisher", "publisher_authid", "publisher_authrole":
+				case "ppt_scheme", "ppt_serializer", "ppt_cipher", "ppt_keyid":
+					want, asked := opts[k]
+					if pptReq == "" || !asked || canon.Val(want) != canon.Val(v) {
+						m.R.Fail("PS9", "foreign detail in EVENT", "after %v: EVENT at P%d carries details.%s=%v, which this publication's options (%v=%v) do not account for: %s", s.op, r, k, v, k, want, o.Snap)
+					}
+				default:
+					if publisher >= 0 {
+						m.R.Fail("PS9", "foreign detail in EVENT", "after %v: EVENT at P%d carries the unexpected detail %q: %s", s.op, r, k, o.Snap)
+					}
+				}
+			}
 			if m.CheckDisclose && publisher >= 0 {
 				m.checkPublisherDisclosure(s, o, r, publisher, discloseReq && rl.Spec.AllowDisclose)
 			}
